@@ -4,6 +4,7 @@
    Version stores: lists of (key, revision, value) strictly ascending in (key, revision) — the engine
    order of the encoded keys by C10 — over the key alphabet; revision 0 = index record.
    Client level: value = Some v (written) | None (deleted); engine level: the marker "tombstone" stands for None. *)
+From KB Require Import Model.ReadRetry Proofs.ReadRetry.
 From KB Require Import Base.Cases Model.Coder Model.ReadSys Model.C03Cases Model.C13Cases Model.ReadValid
   Proofs.Coder Proofs.ReadSys Proofs.ReadSysSnap Proofs.ReadSysThm Proofs.ReadSysSpec Proofs.ReadSysPart Proofs.ReadSysC03 Proofs.ReadSysC13 Proofs.ReadSysC13b Proofs.ReadSysC03b Proofs.ReadValid.
 Local Open Scope N_scope.
@@ -53,6 +54,25 @@ Theorem C03_count : forall (Vs : list (@vrec (option bytes))) fv cur a b,
   CResp cur (N.of_nat (length (in_range a b (snapshot_spec Vs cur)))).
 Proof. exact c03_count. Qed.
 Print Assumptions C03_count.
+
+(* the limited List under an engine-iterator fault (rangeWithLimit calls worker.run once, without runWithBackoffRetry;
+   Model/ReadRetry.v range_limited_fault / list_limited_fault, fault = Some n: the (n+1)-th Next fails): for every
+   store and every fault position the response is the fault-free response or the iterator error (class 4) — never
+   a prefix of the answer, never a wrong `more`; on a well-formed store: the specification's cut snapshot or the error *)
+Theorem C03_limited_fault_all_or_error : forall s fv parts cur a b rev (limit : Z) fault, (0 < limit < max_i64)%Z ->
+  list_limited_fault s fv cur a b rev limit fault = LErr 4 \/
+  list_limited_fault s fv cur a b rev limit fault = list_model s fv parts cur a b rev limit.
+Proof. exact list_limited_fault_all_or_error. Qed.
+Print Assumptions C03_limited_fault_all_or_error.
+
+Theorem C03_limited_fault : forall (Vs : list (@vrec (option bytes))) fv cur a b rev (limit : Z) fault,
+  wf_store Vs -> no_marker Vs -> alpha a -> alpha b -> bcmp a b = Lt ->
+  floor_check fv (eff rev cur) = FOk -> (0 < limit < max_i64)%Z ->
+  let S := in_range a b (snapshot_spec Vs (eff rev cur)) in
+  let out := list_limited_fault (raw_of (enc_store Vs)) fv cur a b rev limit fault in
+  out = LErr 4 \/ out = LResp cur (firstn (Z.to_nat limit) S) (limit <? Z.of_nat (length S))%Z.
+Proof. exact list_limited_fault_spec. Qed.
+Print Assumptions C03_limited_fault.
 
 (* the worker loop itself: on any sorted store its output is the snapshot (engine level) *)
 Theorem C03_worker_snapshot : forall R (V : list (@vrec bytes)), StronglySorted vr_lt V -> wrun_top R V = snapshot V R.
@@ -266,6 +286,16 @@ Example C03_example_snapshots :
   snapshot_spec ex_store 105 = [(w_a, [121], 103); (w_b, [255], 105)] /\
   list_model (raw_of (enc_store ex_store)) (Some (be64 102)) single_part 105 w_a w_b 103 1
     = LResp 105 [(w_a, [121], 103)] true.
+Proof. repeat split; vm_compute; reflexivity. Qed.
+
+(* both outcomes of C03_limited_fault occur on ex_store (limit 1, read at 103; the worker reads limit + 1 = 2 results:
+   /r/a@103 is appended when the index record of /r/a/b is met, /r/a/b@102 when that of /r/b is met, i.e. after 7
+   records): a fault at Next 1..7 is an error with no data, a fault at Next 8 or later is never reached *)
+Example C03_limited_fault_example :
+  let L := list_limited_fault (raw_of (enc_store ex_store)) (Some (be64 102)) 105 w_a w_b 103 1 in
+  L None = LResp 105 [(w_a, [121], 103)] true /\
+  L (Some 0%nat) = LErr 4 /\ L (Some 3%nat) = LErr 4 /\ L (Some 6%nat) = LErr 4 /\
+  L (Some 7%nat) = LResp 105 [(w_a, [121], 103)] true /\ L (Some 9%nat) = LResp 105 [(w_a, [121], 103)] true.
 Proof. repeat split; vm_compute; reflexivity. Qed.
 
 (* later_state is inhabited both ways: a version added above R, and a compaction at F <= R *)
